@@ -49,6 +49,7 @@ pub fn verdict(ok: bool, what: &str) -> ! {
 
 pub mod refparser { include!("refparser.rs"); }
 pub mod mpdtok;
+pub mod mpdfilter;
 pub use refparser::*;
 
 /// outcome of connect / one receive, in a normalised textual form shared by the oracle and the real code
